@@ -116,8 +116,9 @@ extern "C" int verif_case(const uint8_t *data, size_t size, struct verif_report 
 		else if (mut == 13) h = (h & 0xffffffff00000000ULL) | (uint32_t)(D[dbi].slots.size() + vr_u8(&v) % 40);	/* beyond count */
 		else if (mut == 14) h = (h & 0xffffffff00000000ULL) | (0x80000000u | vr_u8(&v));	/* negative slot */
 		else if (mut == 15) dbi = (dbi + 1) % 3;						/* right handle, other database */
+		else if (mut == 11) h &= 0xffffffffULL;						/* never issued: check word 0 (issued ones are > 0) */
 		mdb &T = D[dbi];
-		if (mut >= 12) VCLASS(r, K_BOGUS);
+		if (mut >= 11) VCLASS(r, K_BOGUS);
 		uint32_t slot = (uint32_t)(h & 0xffffffffu), check = (uint32_t)(h >> 32);
 		mslot *s = (slot < T.slots.size()) ? &T.slots[slot] : nullptr;
 		bool valid = s && s->occ && s->check == check;
